@@ -128,6 +128,7 @@ func body(s *simrt.Sim, tier string) {
 		stopped            bool
 		stopCtx            context.Context
 		stopRetStamp       uint64
+		startRetStamp      uint64
 	}
 	var epochs []*epoch
 	running := func() *epoch {
@@ -158,6 +159,56 @@ func body(s *simrt.Sim, tier string) {
 		}
 	}
 	// ctlLock serialises the harness's own bookkeeping of Start/Stop (the calls themselves may interleave with everything else)
+	checkEntries := func() {
+		inv, invStamp := now(), s.Stamp()
+		snap := c.Entries()
+		ret := now()
+		for _, se := range snap {
+			var e *entry
+			for _, x := range entries {
+				if x.added && x.id == se.ID {
+					e = x
+				}
+			}
+			if e == nil {
+				continue // being added right now
+			}
+			if e.removed && e.remRet.Before(inv) {
+				s.Fail("entries-lists-removed", fmt.Sprintf("Entries() lists e%d after Remove returned", e.idx))
+			}
+			// --- Entries reports the next and previous activation actually used
+			isEvery := len(e.spec) > 0 && e.spec[0] == '@'
+			isAct := func(x time.Time) bool { return e.sched.Next(x.Add(-time.Nanosecond)).Equal(x) }
+			if !isEvery {
+				// whatever the scheduler was doing, Prev and Next are values its schedule produced
+				if !se.Prev.IsZero() && !isAct(se.Prev) {
+					s.Fail("entries-prev-not-an-activation", fmt.Sprintf("Entries() reports Prev=%s for e%d (%q): not an activation instant of its schedule", rel(se.Prev), e.idx, e.spec))
+				}
+				if !se.Next.IsZero() && !isAct(se.Next) {
+					s.Fail("entries-next-not-an-activation", fmt.Sprintf("Entries() reports Next=%s for e%d (%q): not an activation instant of its schedule", rel(se.Next), e.idx, e.spec))
+				}
+			}
+			if !se.Prev.IsZero() && !se.Next.IsZero() && !se.Prev.Before(se.Next) {
+				s.Fail("entries-prev", fmt.Sprintf("Entries(): Prev=%s is not before Next=%s for e%d", rel(se.Prev), rel(se.Next), e.idx))
+			}
+			if ep := running(); mode < 3 && !se.Next.IsZero() && ep != nil && ep.startRetStamp != 0 && ep.startRetStamp < invStamp && e.addRetStamp != 0 && e.addRetStamp < invStamp {
+				// no injected delays and no wall-clock jumps: at the snapshot no activation in the past is left unserved
+				if exact && se.Next.Before(inv) {
+					s.Fail("entries-next-in-past", fmt.Sprintf("Entries() at %s reports Next=%s for e%d: an activation in the past was left unserved", rel(inv), rel(se.Next), e.idx))
+				}
+				if exact && !se.Prev.IsZero() {
+					// exact mode: Prev is the activation the entry's latest start was for: the start instants
+					// are the activation instants, so some job of e started (or is about to start) at Prev
+					if se.Prev.After(ret) {
+						s.Fail("entries-prev", fmt.Sprintf("Entries() at %s reports Prev=%s in the future for e%d", rel(ret), rel(se.Prev), e.idx))
+					}
+					if !e.sched.Next(se.Prev).Equal(se.Next) && len(epochs) == 1 {
+						s.Fail("entries-prev", fmt.Sprintf("Entries(): Next=%s is not the activation following Prev=%s for e%d (%q)", rel(se.Next), rel(se.Prev), e.idx, e.spec))
+					}
+				}
+			}
+		}
+	}
 	var names []string
 	for cl, l := range plans {
 		l := l
@@ -174,7 +225,7 @@ func body(s *simrt.Sim, tier string) {
 					epochs = append(epochs, ep)
 					s.Logf("Start at %s", rel(ep.startInv))
 					c.Start()
-					ep.startRet = now()
+					ep.startRet, ep.startRetStamp = now(), s.Stamp()
 				case opStop:
 					ep := running()
 					if cl != 0 || ep == nil || ep.startRet.IsZero() {
@@ -210,54 +261,7 @@ func body(s *simrt.Sim, tier string) {
 					e.remRet, e.remRetStamp = now(), s.Stamp()
 					e.removed = true
 				case opEntries:
-					inv := now()
-					snap := c.Entries()
-					ret := now()
-					for _, se := range snap {
-						var e *entry
-						for _, x := range entries {
-							if x.added && x.id == se.ID {
-								e = x
-							}
-						}
-						if e == nil {
-							continue // being added right now
-						}
-						if e.removed && e.remRet.Before(inv) {
-							s.Fail("entries-lists-removed", fmt.Sprintf("Entries() lists e%d after Remove returned", e.idx))
-						}
-						// --- Entries reports the next and previous activation actually used
-						isEvery := len(e.spec) > 0 && e.spec[0] == '@'
-						isAct := func(x time.Time) bool { return e.sched.Next(x.Add(-time.Nanosecond)).Equal(x) }
-						if !isEvery {
-							// whatever the scheduler was doing, Prev and Next are values its schedule produced
-							if !se.Prev.IsZero() && !isAct(se.Prev) {
-								s.Fail("entries-prev-not-an-activation", fmt.Sprintf("Entries() reports Prev=%s for e%d (%q): not an activation instant of its schedule", rel(se.Prev), e.idx, e.spec))
-							}
-							if !se.Next.IsZero() && !isAct(se.Next) {
-								s.Fail("entries-next-not-an-activation", fmt.Sprintf("Entries() reports Next=%s for e%d (%q): not an activation instant of its schedule", rel(se.Next), e.idx, e.spec))
-							}
-						}
-						if !se.Prev.IsZero() && !se.Next.IsZero() && !se.Prev.Before(se.Next) {
-							s.Fail("entries-prev", fmt.Sprintf("Entries(): Prev=%s is not before Next=%s for e%d", rel(se.Prev), rel(se.Next), e.idx))
-						}
-						if ep := running(); mode < 3 && !se.Next.IsZero() && ep != nil && !ep.startRet.IsZero() && !ep.startRet.After(inv) && !e.addRet.After(inv) {
-							// no injected delays and no wall-clock jumps: at the snapshot no activation in the past is left unserved
-							if exact && se.Next.Before(inv) {
-								s.Fail("entries-next-in-past", fmt.Sprintf("Entries() at %s reports Next=%s for e%d: an activation in the past was left unserved", rel(inv), rel(se.Next), e.idx))
-							}
-							if exact && !se.Prev.IsZero() {
-								// exact mode: Prev is the activation the entry's latest start was for: the start instants
-								// are the activation instants, so some job of e started (or is about to start) at Prev
-								if se.Prev.After(ret) {
-									s.Fail("entries-prev", fmt.Sprintf("Entries() at %s reports Prev=%s in the future for e%d", rel(ret), rel(se.Prev), e.idx))
-								}
-								if !e.sched.Next(se.Prev).Equal(se.Next) && len(epochs) == 1 {
-									s.Fail("entries-prev", fmt.Sprintf("Entries(): Next=%s is not the activation following Prev=%s for e%d (%q)", rel(se.Next), rel(se.Prev), e.idx, e.spec))
-								}
-							}
-						}
-					}
+					checkEntries()
 				case opRelease:
 					if !released {
 						released = true
@@ -266,6 +270,9 @@ func body(s *simrt.Sim, tier string) {
 					}
 				case opSleep:
 					s.Sleep(o.sleep)
+					if s.Choose(3, "entriesAfterSleep") == 0 {
+						checkEntries()
+					}
 				case opJump:
 					// the wall clock steps while the scheduler is at rest (parked on its timer, every job it started already running or done)
 					if ep := running(); ep != nil {
